@@ -345,9 +345,10 @@ type engineOpts struct {
 	updown            bool // after the up run, execute the reverse statements of a reversible plan (mode updown)
 	file, fk          bool
 	rows              []rowSpec
-	withModel         bool // write a model case (else oracle only)
-	viaAtlas          bool // create A through Atlas' own plan from the empty schema (no uniques then)
-	viaAtlasInspected bool // ... and the desired state of that first apply is the inspected form of A (numeric fk symbols become constraint names)
+	withModel         bool      // write a model case (else oracle only)
+	viaAtlas          bool      // create A through Atlas' own plan from the empty schema (no uniques then)
+	viaAtlasInspected bool      // ... and the desired state of that first apply is the inspected form of A (numeric fk symbols become constraint names)
+	fill              *nullFill // class set-notnull-default (notnull.go): the apply must succeed and the NULLs must hold the default
 }
 
 // engineCase runs one (A, B) pair on a real database; returns false when the case was unusable.
@@ -453,6 +454,17 @@ func (c *ctx) engineCase(a, b Schema, desc string, o engineOpts) {
 				continue // e.g. a UNIQUE expression index all generated rows collide on: the row is left out
 			}
 			panic(fmt.Sprintf("harness: insert failed: %v (%s)", err, insertSQL(r, *a.table(r.table))))
+		}
+	}
+	if o.fill != nil {
+		// what the table really holds (without a model a generated row the current schema rejects is left out)
+		f := *o.fill
+		if err := l.db.QueryRow("SELECT count(*), count(*) - count("+q(f.col)+") FROM "+q(f.table)).Scan(&f.total, &f.nulls); err != nil {
+			panic(err)
+		}
+		o.fill = &f
+		if f.nulls == 0 {
+			c.w.Count("engine.fill-without-nulls")
 		}
 	}
 	if o.fk {
@@ -576,6 +588,16 @@ func (c *ctx) engineCase(a, b Schema, desc string, o engineOpts) {
 	if len(cs) > 0 {
 		c.w.NonTrivial(showSchemaChanges(cs, nil))
 	}
+	if o.fill != nil {
+		if aerr != nil {
+			c.w.Violation(id, "notnull-default-failed", ic+fmt.Sprintf("a nullable column with a DEFAULT becomes NOT NULL on a table holding NULLs: the plan has to replace them by the default (IFNULL), but applying it fails: %v ; diff=%s [%s; table %s column %s]", aerr, showSchemaChanges(cs, nil), desc, o.fill.table, o.fill.col))
+			finish()
+			return
+		}
+		if msg := l.checkFill(*o.fill); msg != "" {
+			c.w.Violation(id, "notnull-default-rows", ic+fmt.Sprintf("a nullable column with a DEFAULT became NOT NULL on a table holding NULLs: %s ; diff=%s [%s; table %s column %s]", msg, showSchemaChanges(cs, nil), desc, o.fill.table, o.fill.col))
+		}
+	}
 	switch {
 	case aerr != nil && len(o.rows) > 0:
 		// a populated database: rows may legitimately make a statement fail; any other failure is a violation
@@ -618,6 +640,23 @@ func (c *ctx) engineCase(a, b Schema, desc string, o engineOpts) {
 	finish()
 }
 
+// genToPlain: a generated column of a that is an ordinary column in b -- the rebuild copies the computed values,
+// which the engine model (rows hold stored columns only) does not evaluate: no populated model case for such pairs
+func genToPlain(a, b Schema) bool {
+	for _, t := range a.Tables {
+		bt := b.table(t.Name)
+		if bt == nil {
+			continue
+		}
+		for _, c := range t.Cols {
+			if bc := bt.col(c.Name); c.Gen != nil && bc != nil && bc.Gen == nil {
+				return true
+			}
+		}
+	}
+	return false
+}
+
 func runEngine(c *ctx) {
 	c.w.Rule = "a case is non-trivial when the real differ reports a non-empty change list between the inspected current database and the desired schema; distinct by that list"
 	n := 1000
@@ -635,7 +674,7 @@ func runEngine(c *ctx) {
 	np := n / 4
 	for i := 0; i < np; i++ {
 		a, b, d := pg.pair()
-		if d == "unrelated" || strings.Contains(d, "mod-col-type") || !simpleDefaults(b) || !simpleDefaults(a) {
+		if d == "unrelated" || strings.Contains(d, "mod-col-type") || !simpleDefaults(b) || !simpleDefaults(a) || genToPlain(a, b) {
 			continue
 		}
 		o := engineOpts{file: i%3 == 0, fk: i%2 == 0, withModel: true}
@@ -646,13 +685,23 @@ func runEngine(c *ctx) {
 		noNull = nil
 		c.engineCase(a, b, d+"+rows", o)
 	}
+	// populated: a nullable column with a DEFAULT becomes NOT NULL over NULLs (notnull.go); the type variant has no model
+	nn := 24
+	if c.thorough {
+		nn = 400
+	}
+	for i := 0; i < nn; i++ {
+		if a, b, rows, fill, d, ok := pg.notnullDefault([]int{0, 2, 3}[i%3]); ok && simpleDefaults(a) && simpleDefaults(b) {
+			c.engineCase(a, b, d, engineOpts{file: i%4 == 0, fk: i%2 == 0, withModel: true, rows: rows, fill: &fill})
+		}
+	}
 	for i := 0; i < n; i++ {
 		a, b, d := c.g.pair()
 		o := engineOpts{file: c.r.Chance(1, 3), fk: c.r.Bool(), withModel: true, viaAtlas: c.r.Chance(1, 3)}
 		if !o.viaAtlas && c.r.Chance(1, 4) && c.g.addUniques(&a, &b) {
 			d += "+uniques"
 		}
-		if c.r.Chance(1, 3) && simpleDefaults(b) && !strings.Contains(d, "mod-col-type") && d != "unrelated" {
+		if c.r.Chance(1, 3) && simpleDefaults(b) && !strings.Contains(d, "mod-col-type") && d != "unrelated" && !genToPlain(a, b) {
 			noNull = aliasCols(b)
 			for _, t := range a.Tables {
 				o.rows = append(o.rows, genRows(c.g, t)...)
@@ -734,6 +783,16 @@ func runOracle(c *ctx) {
 		}
 		c.engineCase(a, b, "border:"+kind+"+rows", o)
 	}
+	// populated: a nullable column with a DEFAULT becomes NOT NULL over NULLs, all four variants, any default (notnull.go)
+	nn := 60
+	if c.thorough {
+		nn = 2000
+	}
+	for i := 0; i < nn; i++ {
+		if a, b, rows, fill, d, ok := c.g.notnullDefault(i % 4); ok {
+			c.engineCase(a, b, d, engineOpts{file: i%3 == 0, fk: i%2 == 0, rows: rows, fill: &fill, viaAtlas: i%5 == 4})
+		}
+	}
 	// one stream per open known finding: the witnesses must still fail (they print KNOWN-FINDING), and
 	// any other violation on them still raises
 	kg := &G{r: c.r, allowKnown: false}
@@ -787,7 +846,7 @@ func runUpDown(c *ctx) {
 			d = "additive:" + strings.Join(kinds, "+")
 		}
 		o := engineOpts{updown: true, file: c.r.Chance(1, 3), fk: c.r.Bool(), withModel: true, viaAtlas: c.r.Chance(1, 3)}
-		if c.r.Chance(1, 3) && simpleDefaults(b) && !strings.Contains(d, "mod-col-type") && d != "unrelated" {
+		if c.r.Chance(1, 3) && simpleDefaults(b) && !strings.Contains(d, "mod-col-type") && d != "unrelated" && !genToPlain(a, b) {
 			noNull = aliasCols(b)
 			for _, t := range a.Tables {
 				o.rows = append(o.rows, genRows(c.g, t)...)
